@@ -5,7 +5,7 @@
    strings (no length bound).  DELIMS = ",)" as passed by STEPattribute::STEPread. *)
 From Coq Require Import List ZArith NArith Bool.
 From SC.gen Require Import SevTable Consts.
-From SC Require Import P21Lex P21Lex_Proofs P21Enum P21Enum_Proofs P21Str P21Str_Proofs.
+From SC Require Import P21Lex P21Lex_Proofs P21Enum P21Enum_Proofs P21Str P21Str_Proofs P21Bin P21Bin_Proofs.
 Import ListNotations.
 Local Open Scope Z_scope.
 
@@ -134,3 +134,23 @@ Example c09_string_examples :
   forallb item_ok [Plain 97%N; Page 39%N; Plain 98%N] = true /\
   string_read [39; 105; 116; 39; 39; 115; 39; 41]%N = ([39; 105; 116; 39; 39; 115; 39]%N, SEVERITY_NULL, [41%N]).
 Proof. vm_compute. repeat split. Qed.
+
+(* BINARY (sdaiBinary.cc ReadBinary, called by STEPread with needDelims = 1): a quote, one or more
+   hexadecimal digits and a quote are read to exactly those digits without an error and nothing after
+   the closing quote is consumed; digits without the opening quote are never accepted silently. *)
+Theorem c09_binary_literal_read : forall ds rest,
+  ds <> [] -> forallb is_xdigit ds = true ->
+  read_binary (of_bytes (DQUOTE :: ds ++ DQUOTE :: rest)) SEVERITY_NULL true =
+  (Some ds, SEVERITY_NULL, mkS rest false false).
+Proof. exact binary_literal_read. Qed.
+Print Assumptions c09_binary_literal_read.
+
+Theorem c09_unquoted_binary_flagged : forall ds rest c,
+  ds <> [] -> forallb is_xdigit ds = true -> is_xdigit c = false -> N.eqb c DQUOTE = false ->
+  snd (fst (read_binary (of_bytes (ds ++ c :: rest)) SEVERITY_NULL true)) = SEVERITY_WARNING.
+Proof. exact unquoted_binary_flagged. Qed.
+Print Assumptions c09_unquoted_binary_flagged.
+
+Example c09_binary_example :
+  read_binary (of_bytes [34; 48; 70; 34; 44]%N) SEVERITY_NULL true = (Some [48; 70]%N, SEVERITY_NULL, mkS [44%N] false false).
+Proof. vm_compute. reflexivity. Qed.
